@@ -68,24 +68,30 @@ theorem dequeAppend_room (cap : Nat) (q : List (Addr × Bytes)) (x : Addr × Byt
 
 /-! ### step-level facts about `send` -/
 
+/-- unfolding the action combinators the generated `send` is written with -/
+theorem seq_done (x : Act) (s : State) : (x.seq Act.done) s = x s := by
+  simp [Act.seq, Act.done]
+
 theorem send_plain (s : State) (a : Addr) (p : Bytes) (h : s.anonymized p = false) :
     send s a p = (s, [.raw a p]) := by
-  simp [send, h]
+  simp [send, h, seq_done, actRaw]
 
 theorem send_detached (s : State) (a : Addr) (p : Bytes) (h : s.anonymized p = true) (hd : s.attached = false) :
     send s a p = (s, [.drop false a p]) := by
-  simp [send, h, hd]
+  simp [send, h, hd, seq_done, actGhostDrop]
 
 theorem send_tunnel (s : State) (a : Addr) (p : Bytes) (c : Circuit) (h : s.anonymized p = true)
     (ha : s.attached = true) (hc : s.comm.pick s.hops = some c) :
     send s a p = sendOver s c a p := by
-  simp [send, h, ha, hc]
+  simp only [Community.pick] at hc
+  simp [send, h, ha, hc, seq_done, actSendOver]
 
 theorem send_queue_notready (s : State) (a : Addr) (p : Bytes) (h : s.anonymized p = true)
     (ha : s.attached = true) (hc : s.comm.pick s.hops = none) (hne : (s.comm.find s.hops).isEmpty = false) :
     send s a p = ({ s with queue := (dequeAppend s.cap s.queue (a, p)).1 },
                   (dequeAppend s.cap s.queue (a, p)).2.map (fun x => .drop true x.1 x.2)) := by
-  simp [send, h, ha, hc, hne]
+  simp only [Community.pick] at hc
+  simp [send, h, ha, hc, hne, seq_done, actEnqueue]
 
 theorem send_queue_nocircuit (s : State) (a : Addr) (p : Bytes) (h : s.anonymized p = true)
     (ha : s.attached = true) (hc : s.comm.pick s.hops = none) (he : (s.comm.find s.hops).isEmpty = true) :
@@ -93,7 +99,8 @@ theorem send_queue_nocircuit (s : State) (a : Addr) (p : Bytes) (h : s.anonymize
                            queue := (dequeAppend s.cap s.queue (a, p)).1 },
                   .create (sendCreateHops s.hops) sendCreateFlags (s.comm.create (sendCreateHops s.hops) sendCreateCtype).2
                     :: (dequeAppend s.cap s.queue (a, p)).2.map (fun x => .drop true x.1 x.2)) := by
-  simp [send, h, ha, hc, he]
+  simp only [Community.pick] at hc
+  simp [send, h, ha, hc, he, Act.seq, Act.done, actCreate, actEnqueue]
 
 /-- the five ways a call of `send` can go, with the exact result of each -/
 theorem send_cases (s : State) (a : Addr) (p : Bytes) :
